@@ -23,7 +23,7 @@ pub fn property() -> Property {
             "kernel loopback delivers UDP datagrams up to 65507 bytes in lock-step without loss",
             "reference UDP-over-TCP framing (sing-box v2 connect format) in this module",
         ],
-        families: vec![(Box::new(TunnelFam), 150, 6_000), (Box::new(RelayFam), 1_500, 60_000), (Box::new(ClientRelayFam), 24, 300)],
+        families: vec![(Box::new(TunnelFam), 150, 6_000), (Box::new(RelayFam), 1_500, 60_000), (Box::new(ClientRelayFam), 24, 300), (Box::new(BacklogFam), 40, 600)],
     }
 }
 
@@ -461,6 +461,88 @@ impl Family for ClientRelayFam {
         out.nt(true);
         out.class_if(case.pause_ms >= 1000, "stall>=1s-between-frames");
         out.class_if(case.cuts.contains(&1), "cut-inside-length-prefix");
+        Ok(out)
+    }
+}
+
+// ------------------------------------------------------------------------------------------
+// family `backlog` (Lab-S): an association opened on a session whose sibling stream has a backlog
+
+#[derive(Clone, Debug, Serialize, Deserialize)]
+pub struct BacklogCase {
+    /// chunks of 16 KiB the sibling stream queues with send_data right before the association is made
+    pub queued_chunks: u16,
+    /// sizes of the datagrams the application sends at once
+    pub sizes: Vec<usize>,
+}
+
+pub struct BacklogFam;
+
+impl Family for BacklogFam {
+    type Case = BacklogCase;
+    fn name(&self) -> &'static str {
+        "backlog"
+    }
+    fn strategy(&self, _tier: Tier) -> BoxedStrategy<BacklogCase> {
+        let small = weighted_sizes(vec![(4, 1..=40), (2, 254..=258), (1, 1000..=1500)]);
+        (prop_oneof![Just(0u16), Just(8), Just(200), Just(1500)], proptest::collection::vec(small, 1..4)).prop_map(|(queued_chunks, sizes)| BacklogCase { queued_chunks, sizes }).boxed()
+    }
+    fn case_budget_s(&self) -> u64 {
+        120
+    }
+    fn run(&self, case: &BacklogCase, _cx: &CaseCtx) -> CaseResult {
+        let mut out = Outcome::new();
+        let c = case.clone();
+        let r: Result<(), Fail> = run_real(async move {
+            let case = c;
+            let server = start_real_server(anytls_rs::padding::DEFAULT_PADDING_SCHEME).await?;
+            let quiet = anytls_rs::client::SessionPoolConfig { check_interval: Duration::from_secs(3600), idle_timeout: Duration::from_secs(7200), min_idle_sessions: 1 };
+            let client = real_client(server, anytls_rs::padding::DEFAULT_PADDING_SCHEME, quiet)?;
+            let sink = TcpTarget::start(IpAddr::V4(worker_ip_n(41)), TargetMode::Sink).await?;
+            let target = UdpTarget::start(IpAddr::V4(worker_ip_n(42))).await?;
+            // the sibling: a library user's stream on the (then pooled) session, uploading through send_data
+            let (st, _sess) = match tokio::time::timeout(Duration::from_secs(40), client.create_proxy_stream((sink.addr.ip().to_string(), sink.addr.port()))).await {
+                Ok(Ok(x)) => x,
+                other => return Err(infra(format!("sibling stream: {:?}", other.map(|r| r.map(|_| ()).map_err(|e| e.to_string()))))),
+            };
+            for k in 0..case.queued_chunks {
+                let _ = st.send_data(Bytes::from(keyed(7, 0, k as u64 * 16384, 16384)));
+            }
+            // the association right behind it (it takes the pooled session), and the datagrams at once
+            let local = format!("{}:0", worker_ip());
+            let assoc = match tokio::time::timeout(Duration::from_secs(40), client.create_udp_proxy(&local, target.addr)).await {
+                Ok(Ok(a)) => a,
+                other => return Err(Fail::plain("C15.one", format!("create_udp_proxy failed: {:?}", other.map(|r| r.map_err(|e| e.to_string()))))),
+            };
+            let app = UdpSocket::bind(SocketAddr::new(IpAddr::V4(worker_ip()), 0)).await.map_err(|e| infra(format!("app udp bind: {e}")))?;
+            let mut sent = Vec::new();
+            for (k, size) in case.sizes.iter().enumerate() {
+                let payload = keyed(k as u32, 12, 0, *size);
+                app.send_to(&payload, assoc).await.map_err(|e| infra(format!("app send: {e}")))?;
+                sent.push(payload);
+            }
+            let ok = wait_until(30_000, || target.count() >= sent.len()).await;
+            tokio::time::sleep(Duration::from_millis(50)).await;
+            let got: Vec<Vec<u8>> = target.received.lock().unwrap().iter().map(|(_, d)| d.clone()).collect();
+            ensure!(
+                ok && got == sent,
+                "C15.one",
+                "{} datagrams (sizes {:?}) were sent the moment the association existed, on a session whose other stream had {} KiB queued; the target received {} datagrams of sizes {:?}",
+                sent.len(),
+                case.sizes,
+                case.queued_chunks as usize * 16,
+                got.len(),
+                got.iter().map(|d| d.len()).collect::<Vec<_>>()
+            );
+            // the sibling's upload is not disturbed either
+            let want = case.queued_chunks as usize * 16384;
+            let ok = wait_until(60_000, || sink.total_received() >= want).await;
+            ensure!(ok, "C15.one", "the sibling stream's upload stopped at {} of {want} bytes", sink.total_received());
+            Ok(())
+        });
+        r?;
+        out.nt(case.queued_chunks > 0);
+        out.class_if(case.queued_chunks >= 200, "sibling-has->=3MiB-queued");
         Ok(out)
     }
 }
